@@ -305,6 +305,18 @@ def check_whole_name_match(chk, prog, u):
     an unbounded str(case)cmp compares whole names by itself.  Otherwise a word selects an option it is merely a prefix of
     (or that is a prefix of it)."""
     n = 0
+    # parameters of unit-local helpers that receive a table entry's long name at some call site
+    name_params = set()
+    for f in u.functions.values():
+        if f.body is None:
+            continue
+        for c in X.calls_in(f.body):
+            g = u.functions.get(X.callee_name(c) or "")
+            if g is None:
+                continue
+            for j, a in enumerate(c["ch"][1:]):
+                if j < len(g.params) and any(y.get("k") == "member" and y.get("n") == "long_opt" for y in walk(a)):
+                    name_params.add(g.params[j]["d"])
     for f in u.functions.values():
         if f.body is None:
             continue
@@ -320,7 +332,7 @@ def check_whole_name_match(chk, prog, u):
                         defs.setdefault(dcl["d"], []).append(dcl["init"])
 
         def is_name(e):
-            return any(y.get("k") == "member" and y.get("n") == "long_opt" for y in walk(e))
+            return any((y.get("k") == "member" and y.get("n") == "long_opt") or (y.get("k") == "ref" and y.get("d") in name_params) for y in walk(e))
 
         def length_of(e, depth=0):
             """'name' / 'word' if e is a length measured on the table name / on something else, else None"""
@@ -629,6 +641,51 @@ def run(tier="quick"):
                 if l.get("k") == "index" and X.strip(l["ch"][0]).get("d") == avs[0]["d"] and r.get("k") == "index" and X.strip(r["ch"][0]).get("d") == avs[0]["d"]:
                     copies.append(x)
         if not copies:
+            # the compaction written with walking pointers (dst / src into argv): every access through a pointer derived from
+            # argv is decided by CAP against the calling convention `argv has argc words and its NULL slot`
+            rooted = {avs[0]["d"]}
+            ch_ = True
+            while ch_:
+                ch_ = False
+                for d_, v_ in f.vardecls.items():
+                    if d_ not in rooted and v_.get("tp") and v_.get("init") is not None and any(y.get("k") == "ref" and y.get("d") in rooted for y in walk(v_["init"])):
+                        rooted.add(d_)
+                        ch_ = True
+                for x in walk(f.body):
+                    if x.get("k") == "assign" and x.get("op") == "=":
+                        l_ = X.strip(x["ch"][0])
+                        if l_.get("k") == "ref" and l_.get("tp") and l_.get("d") not in rooted and any(y.get("k") == "ref" and y.get("d") in rooted for y in walk(x["ch"][1])):
+                            rooted.add(l_["d"])
+                            ch_ = True
+            pstores = []
+            for x in walk(f.body):
+                if x.get("k") == "assign" and x.get("op") == "=":
+                    l_, r_ = X.strip(x["ch"][0]), X.strip(x["ch"][1])
+                    if l_.get("k") == "un" and l_.get("op") == "*" and (X.strip(l_["ch"][0]) or {}).get("d") in (rooted - {avs[0]["d"]}) \
+                            and r_ is not None and r_.get("k") == "un" and r_.get("op") == "*" and (X.strip(r_["ch"][0]) or {}).get("d") in rooted:
+                        pstores.append(x)
+            if not pstores:
+                continue
+            from .. import capdrv
+            from ..cap import Cap
+            had = capdrv.SPECS.get(f.name)
+            capdrv.SPECS[f.name] = {avs[0]["n"]: ("ptrs", acs[0]["n"]), "_pre": [({acs[0]["n"]: 1}, 0)]}
+            try:
+                cp = Cap(prog, noreturn=NORETURN)
+                capdrv.analyse(prog, f, cp)
+            finally:
+                if had is None:
+                    capdrv.SPECS.pop(f.name, None)
+                else:
+                    capdrv.SPECS[f.name] = had
+            for o in cp.obls:
+                if o.kind not in ("lower", "upper", "null"):
+                    continue
+                if o.ok or not o.undecided:
+                    n5 += 1
+                    chk.ob("M5", f.name, "compaction-access:%s:%s" % (o.kind, canon(f, o.node)[:36]), o.ok, loc=f.loc(o.node),
+                           detail="%s: %s; witness %s" % (f.name, o.detail, o.witness),
+                           proof="inside argv[0..argc] on every explored path (CAP)")
             continue
         g = GhostPos(f, prog, self_index=None)
         from ..ghostpos import entry_from_callers
@@ -712,7 +769,27 @@ def run(tier="quick"):
         return hits
     cleared_calls = []
 
+    def clears_slot(h_, pa, pi):
+        """does the unit-local helper h_ store NULL into P_pa[P_pi] (drop_arg(argv, pos))?"""
+        if h_ is None or h_.body is None or pa >= len(h_.params) or pi >= len(h_.params):
+            return False
+        da, di = h_.params[pa]["d"], h_.params[pi]["d"]
+        for y in walk(h_.body):
+            if y.get("k") == "assign" and y.get("op") == "=" and X.is_null_const(y["ch"][1]):
+                l_ = X.strip(y["ch"][0])
+                if l_.get("k") == "index" and X.strip(l_["ch"][0]).get("d") == da and X.strip(l_["ch"][1]).get("d") == di:
+                    return True
+        return False
+
     def tr2(state, x, blk):
+        if x.get("k") == "call":
+            h_ = u.functions.get(X.callee_name(x) or "")
+            if h_ is not None:
+                args_ = x["ch"][1:]
+                aj_ = [j for j, a in enumerate(args_) if X.strip(a).get("d") == argv_d]
+                ij_ = [j for j, a in enumerate(args_) if X.strip(a).get("d") == i_d]
+                if aj_ and ij_ and clears_slot(h_, aj_[0], ij_[0]):
+                    return state | {"cleared"}
         if x.get("k") == "assign" and x.get("op") == "=":
             l = X.strip(x["ch"][0])
             if l.get("k") == "index" and X.strip(l["ch"][0]).get("d") == argv_d and X.strip(l["ch"][1]).get("d") == i_d and X.is_null_const(x["ch"][1]):
